@@ -5,7 +5,8 @@
 (* probe middleware -> method -> (error handler) -> probe middleware exit.  *)
 (* Coroutines may suspend at points placed in the middleware (before /      *)
 (* after the inner handler), in the method and in the error handler.  The   *)
-(* (kinds: ok, plain, fail, fail2 - two different error codes).  The      *)
+(* (kinds: ok, plain, fail, fail2 - two different error codes, view - a   *)
+(* method of a class based view keeping request state on its instance).  *)
 (* loop is modelled as it is: a FIFO ready queue, one running task, tasks   *)
 (* run until they suspend or finish; a suspended task becomes ready when    *)
 (* the environment releases the future it awaits (Release).                 *)
